@@ -123,102 +123,95 @@ theorem adapter_glue :
     Astm.Gen.mini_vidas_strptime = ["%m/%d/%y", "%H:%M"] ∧ Astm.Gen.se1520_strptime = ["%y/%m/%d %H:%M"] := by
   decide
 
-theorem mem_endsP_cat (a b : Rx) (s : Rx.Str) (i j : Nat) :
-    j ∈ endsP (.cat a b) s i ↔ ∃ m, m ∈ endsP a s i ∧ j ∈ endsP b s m := by
-  simp [endsP]
+/-! The two vendor patterns are analysed by `rem` (Lemmas/Regex): an over-approximation, proved sound for every
+    pattern, of what can be left of a known input prefix after a match.  The facts below are decided by kernel
+    evaluation on the patterns regenerated from the adapters on every run — whatever their syntactic shape. -/
 
-theorem endsP_group (k : Nat) (b : Rx) (s : Rx.Str) (i : Nat) : endsP (.group k b) s i = endsP b s i := rfl
-
-theorem match_first_cls (c : Cls) (r : Rx) (s : Rx.Str) (h : isMatch (.cat (.cls c) r) s = true) :
-    ∃ b, s[0]? = some b ∧ c.test b = true ∧ ∃ j, j ∈ endsP r s 1 := by
-  rw [isMatch_iff] at h
-  obtain ⟨j, hj⟩ := List.exists_mem_of_ne_nil _ h
-  simp only [endsP, List.mem_flatMap] at hj
-  obtain ⟨m, hm, hjm⟩ := hj
-  cases hg : s[0]? with
-  | none => simp [hg] at hm
-  | some b =>
-    by_cases ht : c.test b = true
-    · simp [hg, ht] at hm; subst hm
-      exact ⟨b, rfl, ht, j, hjm⟩
-    · simp [hg, ht] at hm
-
-/-- the part of a pattern after its first node -/
-def tailOf : Rx → Rx
-  | .cat _ r => r
-  | _ => .fail
-
-theorem mini_tail_first_bytes : ∀ n : Nat, n < 256 → isDigitByte n.toUInt8 = true →
-    firstOk (tailOf Astm.Gen.vendor_mini_vidas) n.toUInt8 = false := by
+/-- neither pattern matches the empty string -/
+theorem vendor_not_empty :
+    emptyOk Astm.Gen.vendor_mini_vidas = false ∧ emptyOk Astm.Gen.vendor_se1520 = false := by
   decide +kernel
 
-theorem vendor_shapes :
-    (∃ r, Astm.Gen.vendor_mini_vidas = .cat (.cls (.set false [.lit 2])) r ∧ emptyOk r = false ∧
-        ∀ b : UInt8, isDigitByte b = true → firstOk r b = false) ∧
-    (∃ g r', Astm.Gen.vendor_se1520 = .cat (.cls (.set false [.lit 2]))
-        (.cat (.group 1 (.cat (.rep (.set false [.digit]) 2 (some 2) true) g)) r')) := by
-  refine ⟨⟨tailOf Astm.Gen.vendor_mini_vidas, by decide +kernel, by decide +kernel, ?_⟩, ⟨_, _, rfl⟩⟩
-  intro b hb
-  have hb' := mini_tail_first_bytes b.toNat b.toNat_lt (by simpa using hb)
-  simpa using hb'
+/-- no string whose first byte is not STX can match either pattern -/
+theorem vendor_first_byte : ∀ n : Nat, n < 256 → n ≠ 2 →
+    rem Astm.Gen.vendor_mini_vidas [n.toUInt8] = [] ∧ rem Astm.Gen.vendor_se1520 [n.toUInt8] = [] := by
+  decide +kernel
+
+/-- no string starting STX, digit can match the miniVidas pattern -/
+theorem mini_frame_prefix : ∀ n : Nat, n < 256 → isDigitByte n.toUInt8 = true →
+    rem Astm.Gen.vendor_mini_vidas [2, n.toUInt8] = [] := by
+  decide +kernel
+
+/-- no string starting STX, digit, non-digit can match the SE-1520 pattern -/
+theorem se1520_frame_prefix : ∀ n : Nat, n < 256 → isDigitByte n.toUInt8 = true → ∀ l : Nat, l < 256 →
+    isDigitByte l.toUInt8 = false → rem Astm.Gen.vendor_se1520 [2, n.toUInt8, l.toUInt8] = [] := by
+  decide +kernel
+
+theorem no_empty_match (r : Rx) (h : emptyOk r = false) : isMatch r [] = false := by
+  cases hm : isMatch r [] with
+  | false => rfl
+  | true =>
+    exfalso
+    rw [isMatch_iff] at hm
+    obtain ⟨j, hj⟩ := List.exists_mem_of_ne_nil _ hm
+    rcases first_byte r [] 0 j hj with ⟨he, _⟩ | ⟨b, hb, _⟩
+    · rw [h] at he; cases he
+    · simp at hb
+
+theorem isMatch_of_pyMatch (r : Rx) (d : Rx.Str) (st : St) (h : pyMatch r d = some st) : isMatch r d = true := by
+  simp [isMatch, h]
 
 /-- both vendor patterns require STX as the first byte: ENQ, EOT, ACK, NAK and any other data are never
     taken over by the converters -/
 theorem vendor_lines_start_with_stx (now d : Bytes) (h : vendorOf now d ≠ none) : d.head? = some STX := by
-  have key : ∀ (rx : Rx) (r : Rx), rx = .cat (.cls (.set false [.lit 2])) r → isMatch rx d = true → d.head? = some STX := by
-    intro rx r hr hm
-    subst hr
-    obtain ⟨b, hb, ht, _⟩ := match_first_cls _ r d hm
-    have : b = 2 := by
-      simp [Cls.test, ClsItem.test] at ht
-      exact UInt8.toNat_inj.mp (by simpa using ht)
-    subst this
+  have key : ∀ (rx : Rx), emptyOk rx = false → (∀ n : Nat, n < 256 → n ≠ 2 → rem rx [n.toUInt8] = []) →
+      isMatch rx d = true → d.head? = some STX := by
+    intro rx he hf hm
     cases d with
-    | nil => simp at hb
-    | cons x xs => simp at hb; simp [hb, STX]
+    | nil => rw [no_empty_match rx he] at hm; cases hm
+    | cons b rest =>
+      by_cases hb : b.toNat = 2
+      · have : b = 2 := UInt8.toNat_inj.mp (by simpa using hb)
+        simp [this, STX]
+      · exfalso
+        have h0 := hf b.toNat b.toNat_lt hb
+        have h1 := no_match_of_rem_nil rx [b] rest (by simpa using h0)
+        simp only [List.singleton_append] at h1
+        rw [h1] at hm; cases hm
   unfold vendorOf at h
-  obtain ⟨⟨r1, h1, _, _⟩, ⟨g, r2, h2⟩⟩ := vendor_shapes
   cases hm : pyMatch Astm.Gen.vendor_mini_vidas d with
-  | some st => exact key _ r1 h1 (by simp [isMatch, hm])
+  | some st =>
+    exact key _ vendor_not_empty.1 (fun n hn h2 => (vendor_first_byte n hn h2).1) (isMatch_of_pyMatch _ _ _ hm)
   | none =>
     simp only [hm] at h
     cases hs : pyMatch Astm.Gen.vendor_se1520 d with
-    | some st => exact key _ _ h2 (by simp [isMatch, hs])
+    | some st =>
+      exact key _ vendor_not_empty.2 (fun n hn h2 => (vendor_first_byte n hn h2).2) (isMatch_of_pyMatch _ _ _ hs)
     | none => simp [hs] at h
 
 /-- Ordinary ASTM frames — STX, a frame-number digit, then a record-type letter — are never taken over
     by the converters. -/
 theorem ordinary_frames_not_taken_over (now : Bytes) (n l : UInt8) (rest : Bytes)
     (hn : isDigitByte n = true) (hl : isDigitByte l = false) : vendorOf now (STX :: n :: l :: rest) = none := by
-  obtain ⟨⟨r1, h1, he1, hf1⟩, ⟨g, r2, h2⟩⟩ := vendor_shapes
-  have hmini : pyMatch Astm.Gen.vendor_mini_vidas (STX :: n :: l :: rest) = none := by
-    cases hm : pyMatch Astm.Gen.vendor_mini_vidas (STX :: n :: l :: rest) with
+  have hp1 := mini_frame_prefix n.toNat n.toNat_lt (by simpa using hn)
+  have hp2 := se1520_frame_prefix n.toNat n.toNat_lt (by simpa using hn) l.toNat l.toNat_lt (by simpa using hl)
+  simp only [UInt8.ofNat_toNat, Nat.toUInt8_eq] at hp1 hp2
+  have key : ∀ (rx : Rx) (bs t : Rx.Str), bs ++ t = STX :: n :: l :: rest → rem rx bs = [] →
+      pyMatch rx (STX :: n :: l :: rest) = none := by
+    intro rx bs t hbt hr
+    cases hm : pyMatch rx (STX :: n :: l :: rest) with
     | none => rfl
     | some st =>
       exfalso
-      have him : isMatch Astm.Gen.vendor_mini_vidas (STX :: n :: l :: rest) = true := by simp [isMatch, hm]
-      rw [h1] at him
-      obtain ⟨b, _, _, j, hj⟩ := match_first_cls _ r1 _ him
-      rcases first_byte r1 _ 1 j hj with ⟨he, _⟩ | ⟨b', hb1, hb2⟩
-      · rw [he1] at he; cases he
-      · simp at hb1; subst hb1
-        rw [hf1 n hn] at hb2; cases hb2
-  have hspot : pyMatch Astm.Gen.vendor_se1520 (STX :: n :: l :: rest) = none := by
-    cases hm : pyMatch Astm.Gen.vendor_se1520 (STX :: n :: l :: rest) with
-    | none => rfl
-    | some st =>
-      exfalso
-      have him : isMatch Astm.Gen.vendor_se1520 (STX :: n :: l :: rest) = true := by simp [isMatch, hm]
-      rw [h2] at him
-      obtain ⟨b, _, _, j, hj⟩ := match_first_cls _ _ _ him
-      obtain ⟨m1, hm1, _⟩ := (mem_endsP_cat _ _ _ _ _).mp hj
-      rw [endsP_group] at hm1
-      obtain ⟨m2, hm2, _⟩ := (mem_endsP_cat _ _ _ _ _).mp hm1
-      obtain ⟨b', hb1, hb2⟩ := rep_consumes _ 2 (some 2) true _ 1 m2 hm2 1 (by omega)
-      simp at hb1; subst hb1
-      have : isDigitByte l = true := by simpa [Cls.test, ClsItem.test, isDigitByte] using hb2
-      rw [hl] at this; cases this
-  simp [vendorOf, hmini, hspot]
+      have him := isMatch_of_pyMatch _ _ _ hm
+      rw [← hbt, no_match_of_rem_nil rx bs t hr] at him
+      cases him
+  simp [vendorOf, key _ [2, n] (l :: rest) rfl hp1, key _ [2, n, l] rest rfl hp2]
+
+/-- the part of a pattern after its first node -/
+def tailOf : Rx → Rx
+  | .cat _ r => r
+  | _ => .fail
 
 /-- non-vacuity: the tag separators 0x1E and `|` are possible second bytes of a miniVidas line, a digit is
     not; an ordinary header frame is not taken over -/
